@@ -109,6 +109,8 @@ type GenesisOpts struct {
 	Mint        *minttypes.Params
 	Rns         *rnstypes.Params
 	Oracle      *oracletypes.Params
+	// Time is the genesis time (zero value: GenesisTime).
+	Time time.Time
 	// Raw replaces whole module sections after everything else (C19's import side).
 	Raw map[string]json.RawMessage
 }
@@ -285,15 +287,19 @@ func New(opts GenesisOpts) *Chain {
 
 	stateBytes, err := json.Marshal(gs)
 	must(err)
+	genTime := GenesisTime
+	if !opts.Time.IsZero() {
+		genTime = opts.Time
+	}
 	a.InitChain(abci.RequestInitChain{
 		ChainId:         ChainID,
-		Time:            GenesisTime,
+		Time:            genTime,
 		Validators:      []abci.ValidatorUpdate{},
 		ConsensusParams: app.DefaultConsensusParams,
 		AppStateBytes:   stateBytes,
 	})
 
-	c := &Chain{App: a, Home: home, Opts: opts, ValSet: valSet, Time: GenesisTime,
+	c := &Chain{App: a, Home: home, Opts: opts, ValSet: valSet, Time: genTime,
 		AccNums: map[string]uint64{}, Seqs: map[string]uint64{}, Genesis: gs}
 	for i, ga := range genAccs {
 		c.AccNums[ga.GetAddress().String()] = uint64(i)
